@@ -1,6 +1,6 @@
 #!/bin/bash
 # usage: tools/seed_batch.sh C02 c02 [C17 c17 ...]   -> runs try_seed for patch1..3 of /tmp/wt_<lc>/_out
-cd /verif
+cd "$(dirname "$0")/.."
 while [ $# -gt 0 ]; do
   P=$1; lc=$2; shift 2
   for i in 1 2 3; do
